@@ -56,6 +56,11 @@ type Req struct {
 	SWords     []string `json:"s_words,omitempty"`
 	Tag        string   `json:"tag,omitempty"`
 	Goroutines int      `json:"goroutines,omitempty"`
+	// the simulated clock (what time.Now inside pkg/inflector reads): ClockJumpMS pass before the request
+	// is served (the process has been alive that much longer), every scheduling step / sequential call /
+	// volume call takes ClockStepUS microseconds
+	ClockJumpMS int64 `json:"clock_jump_ms,omitempty"`
+	ClockStepUS int64 `json:"clock_step_us,omitempty"`
 }
 
 // Resp is the answer.
